@@ -6,7 +6,7 @@
    parent's list, the `<rule> definition <i>` nodes) is checked by diffing the real handler against the model node
    by node, not stated as a theorem. *)
 From Coq Require Import List ZArith String Bool.
-From Cerb Require Import Values PyOps Errors Facts SpecFacts FactsOk Pool Handler HandlerProofs Current.
+From Cerb Require Import Values PyOps Errors Tree Facts SpecFacts FactsOk Pool Validate LocProofs Handler HandlerProofs Current.
 Import ListNotations.
 
 (* the code renders deep copies: BasicErrorHandler.add starts with deepcopy(error), and the error table /
@@ -142,3 +142,20 @@ Example C13_shape_example :
   rt_keys (rt_sub [KStr "a"] (fst (render current [lg]))) = [KStr "anyof definition 0"; KStr "anyof definition 1"] /\
   map fst (all_insertions current [lg]) = [[KStr "a"]; [KStr "a"; KStr "anyof definition 0"]; [KStr "a"; KStr "anyof definition 1"]].
 Proof. vm_compute. split; reflexivity. Qed.
+
+(* for the error list of a ROOT validator (document path []) the hypotheses above hold and the paths are single fields:
+   the top-level keys of the errors property of any validation are exactly the fields of its errors that contribute *)
+Theorem C13_keys_of_a_validation : forall fuel x errs k,
+  x_dp x = [] -> validate_ctx current fuel x = Ok errs ->
+  (In k (rt_keys (fst (render current errs))) <->
+   exists e, In e errs /\ e_dp e = [k] /\ (0 < nmsgs current (S (err_depth e)) 0 e)%nat).
+Proof.
+  intros fuel x errs k Hroot H. apply (validate_errors_located current) in H. unfold located in H. rewrite Hroot in H.
+  assert (Hne : Forall (fun e => e_dp e <> []) errs).
+  { eapply Forall_impl; [|exact H]. intros e [f [Hd _]] Hc. rewrite Hc in Hd. discriminate. }
+  rewrite (render_keys current errs k Hne). rewrite Forall_forall in H. split.
+  - intros [e [p [Hi [Hp Hn]]]]. exists e. split; [exact Hi|split; [|exact Hn]].
+    destruct (H e Hi) as [f [Hd _]]. cbn [app] in Hd. rewrite Hd in Hp. injection Hp as <- <-. exact Hd.
+  - intros [e [Hi [Hp Hn]]]. exists e, []. split; [exact Hi|split; [exact Hp|exact Hn]].
+Qed.
+Print Assumptions C13_keys_of_a_validation.
